@@ -1,8 +1,188 @@
-(* C10 - view evaluation follows the expression semantics and is pure. Statements only; proofs by `exact`. *)
-From Coq Require Import String List ZArith Bool.
+(* C10 - view evaluation follows the expression semantics and is pure. Statements only; proofs by `exact`.
+   Model: Eval/Interp.v (transliteration of pkg/eval, scope threaded as the Go code mutates it), dispatch tables and
+   the fate of iteration variables from Gen/EvalTables.v (regenerated from the source on every run). *)
+From Coq Require Import String List ZArith Bool Sorted.
 Import ListNotations.
-Require Import Verif.Eval.Value Verif.Eval.Interp Verif.Gen.EvalTables.
+Require Import Verif.Eval.Value Verif.Eval.Interp Verif.Eval.Tables Verif.Eval.PureProps Verif.Eval.SemProps Verif.Gen.EvalTables.
+Local Open Scope string_scope.
 
+(* ---- purity ---- *)
+(* every variable bound before the evaluation is bound to the same value afterwards, unless the expression itself
+   has a `let` of that very name; scope variables of where / flatten / transforms and called views need no hypothesis *)
+Theorem C10_eval_pure : forall fuel vs sc e v sc' x val,
+  eval fuel vs sc e = Ok (v, sc') -> sget x sc = Some val -> ~ In x (lets e) -> x <> implied_result ->
+  sget x sc' = Some val.
+Proof. exact eval_pure. Qed.
+Print Assumptions C10_eval_pure.
+
+Theorem C10_eval_no_leak : forall fuel vs sc e v sc' x,
+  eval fuel vs sc e = Ok (v, sc') -> sget x sc = None -> ~ In x (lets e) -> x <> implied_result -> sget x sc' = None.
+Proof. exact eval_no_leak. Qed.
+Print Assumptions C10_eval_no_leak.
+
+Theorem C10_evaluate_view_pure : forall fuel vs name vw sc v sc' x val,
+  assoc String.eqb name vs = Some vw ->
+  evaluate_view fuel vs name sc = Ok (v, sc') -> sget x sc = Some val -> ~ In x (lets (v_body vw)) -> x <> implied_result ->
+  sget x sc' = Some val.
+Proof. exact evaluate_view_pure. Qed.
+Print Assumptions C10_evaluate_view_pure.
+
+(* the hypothesis on lets is needed (the real code behaves the same: known finding) *)
+Theorem C10_eval_pure_let_refuted :
+  exists fuel vs sc e v sc' x val,
+    eval fuel vs sc e = Ok (v, sc') /\ sget x sc = Some val /\ x <> implied_result /\ sget x sc' <> Some val.
+Proof. exact eval_pure_let_refuted. Qed.
+Print Assumptions C10_eval_pure_let_refuted.
+
+(* where / flatten put their scope variable back whatever the right-hand side does *)
+Theorem C10_where_restores : forall ev sc op l r sv v sc',
+  assoc binop_eqb op strategy_table = Some SLhsOverRhs ->
+  eval_binexpr ev sc op l r sv = Ok (v, sc') ->
+  exists lv sc1, ev sc l = Ok (lv, sc1) /\ sget sv sc' = sget sv sc1.
+Proof. exact where_restores_local. Qed.
+Print Assumptions C10_where_restores.
+
+Theorem C10_where_restores_eval : forall fuel vs sc op l r sv v sc',
+  assoc binop_eqb op strategy_table = Some SLhsOverRhs ->
+  eval fuel vs sc (EBin op l r sv) = Ok (v, sc') -> ~ In sv (lets l) -> sv <> implied_result ->
+  sget sv sc' = sget sv sc.
+Proof. exact where_restores. Qed.
+Print Assumptions C10_where_restores_eval.
+
+Theorem C10_transform_restores : forall ev sc arg sv ss ty v sc',
+  is_dot_name arg = false ->
+  eval_transform ev sc arg sv ss ty = Ok (v, sc') ->
+  exists av sc0, ev sc arg = Ok (av, sc0) /\ sget sv sc' = sget sv sc0.
+Proof. exact transform_restores_scopevar. Qed.
+Print Assumptions C10_transform_restores.
+
+(* ---- semantics of the operators, through the dispatch tables of the current source ---- *)
+Theorem C10_default_strategy : forall ev sc op l r sv lv rv sc1 sc2,
+  assoc binop_eqb op strategy_table = Some SDefault ->
+  ev sc l = Ok (lv, sc1) -> ev sc1 r = Ok (rv, sc2) ->
+  eval_binexpr ev sc op l r sv = (v <- binop_value op lv rv ;; Ok (v, sc2)).
+Proof. exact default_strategy. Qed.
+Print Assumptions C10_default_strategy.
+
+Theorem C10_int_arithmetic : forall x y,
+  binop_value OpADD (VInt x) (VInt y) = Ok (VInt (wrap64 (x + y))) /\
+  binop_value OpSUB (VInt x) (VInt y) = Ok (VInt (wrap64 (x - y))) /\
+  binop_value OpMUL (VInt x) (VInt y) = Ok (VInt (wrap64 (x * y))) /\
+  binop_value OpDIV (VInt x) (VInt y) = (if Z.eqb y 0 then Panic else Ok (VInt (wrap64 (Z.quot x y)))) /\
+  binop_value OpMOD (VInt x) (VInt y) = (if Z.eqb y 0 then Panic else Ok (VInt (wrap64 (Z.rem x y)))).
+Proof. exact (fun x y => conj (sem_add x y) (conj (sem_sub x y) (conj (sem_mul x y) (conj (sem_div x y) (sem_mod x y))))). Qed.
+Print Assumptions C10_int_arithmetic.
+
+Theorem C10_wrap64 : forall z, (- two63 <= wrap64 z < two63)%Z /\ (exists k, wrap64 z = (z + k * two64)%Z).
+Proof. exact (fun z => conj (wrap64_range z) (wrap64_congr z)). Qed.
+Print Assumptions C10_wrap64.
+
+Theorem C10_comparisons : forall x y,
+  binop_value OpLT (VInt x) (VInt y) = Ok (VBool (Z.ltb x y)) /\ binop_value OpLE (VInt x) (VInt y) = Ok (VBool (Z.leb x y)) /\
+  binop_value OpGT (VInt x) (VInt y) = Ok (VBool (Z.gtb x y)) /\ binop_value OpGE (VInt x) (VInt y) = Ok (VBool (Z.geb x y)) /\
+  binop_value OpEQ (VInt x) (VInt y) = Ok (VBool (Z.eqb x y)).
+Proof. exact (fun x y => conj (sem_lt x y) (conj (sem_le x y) (conj (sem_gt x y) (conj (sem_ge x y) (sem_eq_int x y))))). Qed.
+Print Assumptions C10_comparisons.
+
+Theorem C10_strings_bools : forall (s t:string) (a b:bool),
+  binop_value OpADD (VStr s) (VStr t) = Ok (VStr (s ++ t)) /\ binop_value OpEQ (VStr s) (VStr t) = Ok (VBool (String.eqb s t)) /\
+  binop_value OpAND (VBool a) (VBool b) = Ok (VBool (a && b)) /\ binop_value OpEQ (VBool a) (VBool b) = Ok (VBool (Bool.eqb a b)).
+Proof. exact (fun s t a b => conj (sem_concat_str s t) (conj (sem_eq_str s t) (conj (sem_and a b) (sem_eq_bool a b)))). Qed.
+Print Assumptions C10_strings_bools.
+
+Theorem C10_ne_is_not_eq : forall ev sc l r sv lv rv sc1 sc2,
+  ev sc l = Ok (lv, sc1) -> ev sc1 r = Ok (rv, sc2) ->
+  eval_binexpr ev sc OpNE l r sv = (v <- binop_value OpEQ lv rv ;; n <- unary_neg v ;; Ok (n, sc2)).
+Proof. exact ne_strategy. Qed.
+Print Assumptions C10_ne_is_not_eq.
+
+(* list concatenation is ++ *)
+Theorem C10_concat_is_app : forall ev sc l r sv a b sc1 sc2,
+  ev sc l = Ok (VList a, sc1) -> ev sc1 r = Ok (VList b, sc2) ->
+  eval_binexpr ev sc OpBITOR l r sv = Ok (VList (a ++ b), sc2).
+Proof. exact concat_is_app. Qed.
+Print Assumptions C10_concat_is_app.
+
+(* ... and builds its result in fresh storage in the current source, which is what lets the model use values
+   without storage identity (an earlier binding cannot be changed by a later `|`) *)
 Theorem C10_concat_copies : concat_shape = ConcatCopy.
-Proof. exact (eq_refl ConcatCopy). Qed.
+Proof. exact concat_copies. Qed.
 Print Assumptions C10_concat_copies.
+
+(* set union: sorted, no duplicates, exactly the members of both *)
+Theorem C10_set_union_ints : forall a b,
+  exists u, binop_value OpBITOR (VSet (map VInt a)) (VSet (map VInt b)) = Ok (VSet (map VInt u))
+            /\ StronglySorted Z.lt u /\ NoDup u /\ (forall z, In z u <-> In z a \/ In z b).
+Proof. exact set_union_ints. Qed.
+Print Assumptions C10_set_union_ints.
+
+Theorem C10_set_union_strings : forall a b,
+  exists u, binop_value OpBITOR (VSet (map VStr a)) (VSet (map VStr b)) = Ok (VSet (map VStr u))
+            /\ StronglySorted slt u /\ NoDup u /\ (forall z, In z u <-> In z a \/ In z b).
+Proof. exact set_union_strings. Qed.
+Print Assumptions C10_set_union_strings.
+
+(* membership *)
+Theorem C10_membership : forall s l,
+  binop_value OpIN (VStr s) (VList (map VStr l)) = Ok (VBool (string_in s (map VStr l))) /\
+  binop_value OpNOT_IN (VStr s) (VSet (map VStr l)) = Ok (VBool (negb (string_in s (map VStr l)))) /\
+  (string_in s (map VStr l) = true <-> In s l).
+Proof. exact (fun s l => conj (sem_in_list s _) (conj (sem_not_in_set s _) (string_in_spec s l))). Qed.
+Print Assumptions C10_membership.
+
+(* `set of` transforms produce no two equal results; value_eqb (proto.Equal on the fragment) decides equality *)
+Theorem C10_set_transform_no_duplicates : forall ev sv ss xs acc sc out sc',
+  transform_loop ev set_transform_appender sv ss xs acc sc = Ok (out, sc') -> NoDup acc -> NoDup out.
+Proof. exact set_transform_no_duplicates. Qed.
+Print Assumptions C10_set_transform_no_duplicates.
+
+Theorem C10_value_eqb_decides : forall a b, value_eqb a b = true <-> a = b.
+Proof. exact value_eqb_eq. Qed.
+Print Assumptions C10_value_eqb_decides.
+
+(* where = filter, flatten = concat-map, along the threaded scope *)
+Theorem C10_where_list_filters : forall ev sc xs sv rhs v sc',
+  apply_efun ev G_whereList sc (VList xs) sv rhs = Ok (v, sc') ->
+  exists rs, iter_trace ev sv rhs xs sc rs sc' /\ v = VList (select xs rs).
+Proof. exact where_list_filters. Qed.
+Print Assumptions C10_where_list_filters.
+
+Theorem C10_where_set_filters : forall ev sc xs sv rhs v sc',
+  apply_efun ev G_whereSet sc (VSet xs) sv rhs = Ok (v, sc') ->
+  exists rs, iter_trace ev sv rhs xs sc rs sc' /\ v = VSet (select xs rs).
+Proof. exact where_set_filters. Qed.
+Print Assumptions C10_where_set_filters.
+
+Theorem C10_flatten_list_of_lists : forall ev sc ls sv rhs v sc',
+  apply_efun ev G_flattenListList sc (VList (map VList ls)) sv rhs = Ok (v, sc') ->
+  exists rs, iter_trace ev sv rhs (concat ls) sc rs sc' /\ v = VList rs.
+Proof. exact flatten_list_of_lists. Qed.
+Print Assumptions C10_flatten_list_of_lists.
+
+Theorem C10_flatten_set_of_sets : forall ev sc ls sv rhs v sc',
+  apply_efun ev G_flattenSetSet sc (VSet (map VSet ls)) sv rhs = Ok (v, sc') ->
+  exists rs, iter_trace ev sv rhs (concat ls) sc rs sc' /\ v = VSet rs.
+Proof. exact flatten_set_of_sets. Qed.
+Print Assumptions C10_flatten_set_of_sets.
+
+(* where exists for lists and sets of every element kind; every table entry is a function the model knows *)
+Theorem C10_tables_known :
+  forallb (fun p => negb (vfun_eqb (snd p) F_unknown)) value_functions
+  && forallb (fun p => efun_known (snd p)) expr_functions
+  && forallb (fun p => ufun_known (snd p)) unary_functions
+  && forallb (fun p => strategy_known (snd p)) strategy_table = true.
+Proof. exact tables_known. Qed.
+Print Assumptions C10_tables_known.
+
+Theorem C10_where_rows :
+  forallb (fun k => match assoc key3_eqb (OpWHERE, KList, k) expr_functions with Some G_whereList => true | _ => false end)
+          [KNoArg; KBool; KInt; KString; KList; KSet; KMap]
+  && forallb (fun k => match assoc key3_eqb (OpWHERE, KSet, k) expr_functions with Some G_whereSet => true | _ => false end)
+          [KNoArg; KBool; KInt; KString; KList; KSet; KMap] = true.
+Proof. exact where_rows. Qed.
+Print Assumptions C10_where_rows.
+
+(* equal inputs give equal results (a Gallina function; Go map iteration is sorted wherever the model covers it) *)
+Theorem C10_eval_deterministic : forall fuel vs sc e r1 r2, eval fuel vs sc e = r1 -> eval fuel vs sc e = r2 -> r1 = r2.
+Proof. exact eval_deterministic. Qed.
+Print Assumptions C10_eval_deterministic.
